@@ -43,7 +43,16 @@ def build(src, clsname="M"):
     from statemachine import State, StateMachine
     from statemachine.event import Event
     from statemachine.states import States
-    ns = dict(StateMachine=StateMachine, State=State, States=States, Event=Event, Enum=Enum, IntEnum=IntEnum, cb=cb)
+    def use_first(base):
+        if getattr(base, "_abstract", True):
+            return
+        for st in list(base.states):
+            try:
+                list(base(model=Rec(), start_value=st.value).allowed_events)
+            except Exception:  # noqa: BLE001  (a base that cannot be instantiated on its own: nothing to use)
+                pass
+    ns = dict(StateMachine=StateMachine, State=State, States=States, Event=Event, Enum=Enum, IntEnum=IntEnum, cb=cb,
+              use_first=use_first)
     try:
         with warnings.catch_warnings():
             warnings.simplefilter("ignore")
@@ -114,6 +123,17 @@ def extract(cls):
                        f"v={_show(_specs(t.validators))} c={_show(_specs(t.cond, cond=True))} "
                        f"b={_show(_specs(t.before))} o={_show(_specs(t.on))} a={_show(_specs(t.after))}")
     out.append(f"events {_show(_evid(e) for e in cls.events)}")
+    # a base class of the machine is a machine of its own: its instances are used *first* (every state, allowed_events
+    # read) — what the subclass then answers must not depend on that
+    for base in cls.__mro__[1:]:
+        if getattr(base, "states", None) and not getattr(base, "_abstract", True):
+            for s in list(base.states):
+                with warnings.catch_warnings():
+                    warnings.simplefilter("ignore")
+                    try:
+                        list(base(model=Rec(), start_value=s.value).allowed_events)
+                    except Exception:  # noqa: BLE001  (finding D7: a subclass may have changed its base)
+                        pass
     for s in states:
         with warnings.catch_warnings():
             warnings.simplefilter("ignore")
